@@ -633,9 +633,10 @@ Proof.
   cbn [proj_list]. destruct (f x) as [v| | | |]; cbn [bind]; try exact I.
   revert IH. destruct (proj_list f r) as [ps0| | | |]; cbn [bind].
   - destruct v; cbn [not_null proj_list]; rewrite ?g_null; cbn [bind not_null];
-      try (destruct (g _) as [p| | | |]; cbn [bind agree]; try (intros; exact I));
+      try (match goal with |- context [g ?u] => destruct (g u) as [p| | | |] end;
+           cbn [bind agree]; try (intros; exact I));
       destruct (proj_list _ r), (proj_list g ps0); cbn [bind agree]; intros IH;
-      try exact I; try contradiction; congruence.
+      try exact I; try contradiction; first [subst; reflexivity | congruence].
   - destruct (g v); cbn [bind agree]; try (intros; exact I).
     destruct (proj_list _ r); cbn [bind agree]; intros IH; try exact I; contradiction.
   - destruct (g v); cbn [bind agree]; try (intros; exact I).
